@@ -12,7 +12,9 @@ LEVEL = 'model_checking'
 TECHNIQUE = 'exhaustive enumeration of write_segment programs on the real writer; emitted bytes judged by an independent strict structural parser'
 LEVEL_TEXT = ('Every program over the C07 alphabet (call sequences to depth 2/3 x kind assignments x session splits x versions x '
               'destinations x index file off/on) is executed on the real TdmsWriter; the emitted .tdms and .tdms_index bytes are '
-              'parsed by an independent strict parser that checks every offset and length field against the bytes present.')
+              'parsed by an independent strict parser that checks every offset and length field against the bytes present. Extra '
+              'destination: a path that already holds a file and its index, re-created by a session that writes nothing and then '
+              'appended to; depth 3 over the channel-repeating sub-alphabet in every tier.')
 LEVEL_NOTE = ('Trusted: mc/tdmsparse.py (bound to LabVIEW-written files and the maintainers scenarios by selftest). Checked: '
               'next-segment/raw-data offsets, every length field (paths, raw data index incl. 20/28, strings), metadata parses to '
               'exactly raw_data_offset bytes, raw length = declared sizes, root in first segment, group no later than channel, '
